@@ -58,7 +58,10 @@ func processMember(field reflect.StructField, value reflect.Value,
 
 	val := value.Interface()
 	if opt != nil && opt.FromString {
-		val = fmt.Sprint(val)
+		// 带 string 选项的指针字段：取其所指的值再转文本（否则发出去的是地址）；空指针保持为空
+		if target := reflect.Indirect(value); target.IsValid() && (value.Kind() != reflect.Ptr || !value.IsNil()) {
+			val = fmt.Sprint(target.Interface())
+		}
 	}
 
 	m, ok := ret[tag]
